@@ -557,6 +557,8 @@ pub struct BindRequest<'data> {
     payload: BindPayload<'data>,
     /// Place to respond to the bind request
     tx_msg_tx: mpsc::UnboundedSender<Message>,
+    /// Whether a reply has been sent (so that dropping the request does not send another one)
+    replied: AtomicBool,
 }
 
 impl BindRequest<'_> {
@@ -590,6 +592,10 @@ impl BindRequest<'_> {
     /// - Returns [`Error::Closed`] if the `Multiplexor` is already closed.
     #[tracing::instrument(skip(self), level = "debug")]
     pub fn reply(&self, accepted: bool) -> Result<()> {
+        // Only the first reply counts: the peer frees the flow ID as soon as it sees one
+        if self.replied.swap(true, Ordering::Relaxed) {
+            return Ok(());
+        }
         if accepted {
             self.tx_msg_tx.send(Frame::new_finish(self.flow_id).into())
         } else {
